@@ -485,6 +485,16 @@ def check_model(ctx, p, rs, rl, api):
     if missing and not (kind == "unroll" and missing == ["rank_ok"]) and not (kind in ("num", "anon") and not m.get("counts_known")):
         # rank_ok can fail legitimately when the short form has no solution at the rank level; everything else must hold on generated cases
         bad.append((tie, f"hypotheses {missing} of the theorem do not hold for {where}"))
+    # (c') the syntactic condition of Props/C07Names.lean: einx's own stage-1 trees must carry plain names only
+    #      (identifiers or the anonymous ellipsis name); the name-level hypotheses are then theorems
+    ctx.count(f"stage2:{kind}:plain-names:" + ("holds" if m.get("plain") else "FAILS"))
+    if not m.get("plain"):
+        bad.append(("correspondence:stage2-names", f"an axis name in einx's stage-1 trees is not plain (contains '#' or ends in '.digits') for {where}: "
+                    f"{m['long']['text']}; Props/C07Names.lean (parser_names_plain) does not cover the real parser's output"))
+    else:
+        contra = [h for h in ("names_ok_short", "names_ok_long", "fresh", "ren_ok") if h in hyp and not m.get(h)]
+        if contra:
+            bad.append(("correspondence:stage2-names", f"plainNames holds but the driver evaluates {contra} to false for {where} (contradicts Props/C07Names.lean)"))
     # (d) the conclusion on this instance: same verdict, same lengths, same shapes; and as einx reports
     ss, sl = m["solve_short"], m["solve_long"]
     cls = lambda o: "none" if o["outcome"] in ("rankNone", "valueNone") else ("unique" if o["outcome"] == "unique" else "stuck")
